@@ -56,6 +56,10 @@ CLAIMED["C07"] = dict(engine="E1", technique="symbolic execution of the real cha
     text="AWGN (real / complex, power symbolic or on a grid, SNR on a grid): for all inputs and all unit draws the added noise equals draw x sqrt(P) per real component (P/2 per complex component), P being the configured power or signal power / 10^(snr/10); caller-supplied noise is added verbatim; Laplacian: same-draw relation noise(P) = sqrt(P/(2c)) x unit-scale noise with c real components; add_noise_for_snr, the SNR metric (linear) and the dB<->linear<->noise-power conversions agree with the same definition.",
     note="Trusted lemmas: torch's generators deliver the unit laws, Var of the Laplacian transform is 2. Empirical powers of real draws are outside the claim. 1e-5 relative margin for the float32 conversion of the computed power.",
     ref="DESIGN.md §4 C07")
+CLAIMED["C13"] = dict(engine="E1", technique="symbolic execution of the real flat-fading channel with Gaussian draws stubbed to symbolic reals; the output is a polynomial in inputs and draws whose normal form is compared with h.x + n (z3 asked for a point where the residual exceeds the margin); normalisation through a moment substitution on the coefficient polynomial produced by the real code",
+    text="Supplied csi/noise: y == h.x + n and shape preserved for 1-D, (B,L) and (B,C,H,W) inputs (all x, h, n). Generated gains: for every coherence time 1..L+1 and batch 1..2, y - noise equals H[b, floor(i/Tc)] . x with one independent complex draw per (batch item, block) and noise = draw x sqrt(P/2); E|h|^2 = 1 for Rayleigh / Rician(K in {0,2,100}) and LOS/scatter = K.",
+    note="Moment lemma (E g = 0, E g^2 = 1, independence) and torch's generator are trusted; SNR-calibrated noise on the faded signal is a stretch item (non-linear); log-normal normalisation is outside the claim.",
+    ref="DESIGN.md §4 C13")
 NOT_YET = {}
 
 PENDING_REASON = "check not built yet in this round (planned: see DESIGN.md §8); not claimed until its check exists"
